@@ -384,6 +384,84 @@ fn case_twins(ctx: &Ctx, rep: &mut Report) {
     }
 }
 
+/// A field whose type is overridden for ONE language by the name of another item of the file (`#[typeshare(kotlin(type =
+/// "Wallet"))] note: String`), where that item refers back to the struct: for every other language the reference graph is
+/// `Account -> Profile`, `Wallet -> Account` - acyclic - and the order has to respect it. Judged on exact names.
+fn override_naming_an_item(ctx: &Ctx, rep: &mut Report) {
+    let langs = [LangId::Ts, LangId::Kotlin, LangId::Swift, LangId::Go, LangId::Python];
+    struct Run {
+        lang: LangId,
+        ovr: LangId,
+        source: String,
+        text: Option<String>,
+        outcome: String,
+    }
+    let mut runs: Vec<Run> = vec![];
+    for ovr in [LangId::Kotlin, LangId::Swift, LangId::Ts, LangId::Go] {
+        for position in 0..2 {
+            let attr = format!("#[typeshare({}(type = \"Wallet\"))]", ovr.name());
+            let account = if position == 0 {
+                format!("#[typeshare]\npub struct Account {{\n    {attr}\n    pub note: String,\n    pub profile: Profile,\n}}\n")
+            } else {
+                format!("#[typeshare]\n#[serde(tag = \"t\", content = \"c\")]\npub enum Account {{\n    Open {{\n        {attr}\n        note: String,\n        profile: Profile,\n    }},\n    Closed,\n}}\n")
+            };
+            let items = [account, "#[typeshare]\npub struct Profile {\n    pub v: u32,\n}\n".to_string(), "#[typeshare]\npub struct Wallet {\n    pub owner: Account,\n}\n".to_string()];
+            for perm in [[0usize, 1, 2], [0, 2, 1], [1, 0, 2], [1, 2, 0], [2, 0, 1], [2, 1, 0]] {
+                let source: String = perm.iter().map(|&i| format!("{}\n", items[i])).collect();
+                for lang in langs {
+                    let o = run_lib(&[SrcFile { path: "src/lib.rs".into(), source: source.clone() }], lang, &LangCfg::basic(lang), false, &[]);
+                    rep.count("override_naming_an_item_runs", 1);
+                    runs.push(Run { lang, ovr, source: source.clone(), text: o.single().map(|t| t.to_string()), outcome: o.describe() });
+                }
+            }
+        }
+    }
+    let items: Vec<(LangId, &str)> = runs.iter().map(|r| (r.lang, r.text.as_deref().unwrap_or(""))).collect();
+    let facts = crate::facts::parse_many(ctx, "c11-ovr", &items, false);
+    for (r, f) in runs.iter().zip(facts.iter()) {
+        let lname = r.lang.name();
+        let detail = |extra: serde_json::Value| json!({"language": lname, "override_for": r.ovr.name(), "source": r.source, "output": r.text, "extra": extra});
+        if r.text.is_none() {
+            rep.inconclusive("override-program-not-generated", json!({"language": lname, "outcome": r.outcome, "source": r.source}));
+            continue;
+        }
+        let Some(file) = f.file() else {
+            rep.inconclusive(&format!("output-not-parsed-{lname}"), json!({"status": format!("{:?}", f.status).chars().take(300).collect::<String>(), "source": r.source}));
+            continue;
+        };
+        rep.eval(1);
+        rep.cell(format!("override-naming-an-item|{lname}|for={}", r.ovr.name()));
+        let at = |n: &str| -> Vec<usize> { file.defs.iter().filter(|d| d.kind != DefKind::Helper && d.name == n).map(|d| d.start).collect() };
+        let names = ["Account", "Profile", "Wallet"];
+        let pos: Vec<Vec<usize>> = names.iter().map(|n| at(n)).collect();
+        let mut ok = true;
+        for (n, p) in names.iter().zip(pos.iter()) {
+            if p.len() != 1 {
+                ok = false;
+                rep.violate(
+                    format!("C11|permutation|{}|override-naming-an-item", if p.is_empty() { "definition-lost" } else { "definition-duplicated" }),
+                    format!("{lname}: item {n} is defined {} times in the output", p.len()),
+                    detail(json!({"item": n})),
+                );
+            }
+        }
+        // the language the override is written for prints `Wallet` for the field: Account -> Wallet -> Account is a cycle there
+        if !ok || r.lang == r.ovr {
+            continue;
+        }
+        for (from, to) in [(0usize, 1usize), (2, 0)] {
+            rep.count("edges_checked", 1);
+            if pos[to][0] > pos[from][0] {
+                rep.violate(
+                    "C11|order|override-for-another-language-names-an-item".to_string(),
+                    format!("{lname}: {} is emitted before {} although it refers to it (a field of Account carries a {} type override naming Wallet)", names[from], names[to], r.ovr.name()),
+                    detail(json!({"order": file.defs.iter().filter(|d| d.kind != DefKind::Helper).map(|d| d.name.clone()).collect::<Vec<_>>()})),
+                );
+            }
+        }
+    }
+}
+
 pub fn run(ctx: &Ctx) -> (Spec, Report) {
     // exhaustive part: all edge sets on 3 source-capable items (2^9 graphs), thorough: 4 items sampled by bitmask stride
     let n_exh = 512usize;
@@ -491,9 +569,10 @@ pub fn run(ctx: &Ctx) -> (Spec, Report) {
     );
     let mut rep = rep;
     case_twins(ctx, &mut rep);
+    override_naming_an_item(ctx, &mut rep);
     let spec = Spec {
         level: "exploration",
-        rule: format!("4 pairs of items whose names differ only in letter case (structs and aliases, both used by a third item, all 6 source orders); all 512 edge sets over 3 items (exhaustive) plus {} random graphs on 1-12 items (DAGs, diamonds, chains, self-loops, cycles; an eighth of the item names begin with a lower-case letter), references placed in struct fields, newtype and struct variants, alias targets and const types, through direct / Vec / Option / HashMap key / value / array / slice / generic argument / nested wrappers, any source order, a fifth of the types serde-renamed; TS, Kotlin, Swift, Go, Python; oracle: every item defined exactly once; for acyclic graphs every definition after each same-file definition it refers to (Python additionally imported under stub pydantic); distinct = (language, item count, acyclic?) and (edge position, wrapper, target renamed?)", n - n_exh),
+        rule: format!("a field overridden for one language by the name of an item that refers back (4 languages x struct / struct-variant field x 6 source orders, judged for the other languages); 4 pairs of items whose names differ only in letter case (structs and aliases, both used by a third item, all 6 source orders); all 512 edge sets over 3 items (exhaustive) plus {} random graphs on 1-12 items (DAGs, diamonds, chains, self-loops, cycles; an eighth of the item names begin with a lower-case letter), references placed in struct fields, newtype and struct variants, alias targets and const types, through direct / Vec / Option / HashMap key / value / array / slice / generic argument / nested wrappers, any source order, a fifth of the types serde-renamed; TS, Kotlin, Swift, Go, Python; oracle: every item defined exactly once; for acyclic graphs every definition after each same-file definition it refers to (Python additionally imported under stub pydantic); distinct = (language, item count, acyclic?) and (edge position, wrapper, target renamed?)", n - n_exh),
         assumptions: vec!["definition positions are those of the principal definitions recovered by the output parsers; Scala does not use the shared ordering and is not judged".into()],
         exhaustive: Some(false),
     };
